@@ -1,4 +1,5 @@
 import Sudachi.Proofs.Edit
+import Sudachi.Props.C02
 /-!
 # C01 — Morphemes partition the original text byte-for-byte (lossless surfaces)
 
@@ -10,9 +11,11 @@ byte range in the original text is `m2o[b] .. m2o[e]` for its range `b..e` in th
 What is proved here: for **every** original text, **every** admissible sequence of edit batches
 (whatever plugin produced them) and **every** chain of token boundaries of the rewritten text that
 starts at 0, ends at its length and is non-decreasing, the surfaces partition the original text.
-That the token boundaries produced by the lattice search, A/B splitting and the path-rewrite
-plugins do form such a chain is the subject of the lattice model (C02), the split model (C09) and the
-rewrite model (C14); that the bundled input plugins emit admissible batches is C07 (`…_edits_ok`).
+That the token boundaries produced by the lattice search do form such a chain is proved in the
+lattice model (`C02.path_contiguous`) and composed with the partition theorem here
+(`lattice_tokens_partition`); for A/B splitting and the path-rewrite plugins it is the subject of the
+split model (C09) and the rewrite model (C14); that the bundled input plugins emit admissible batches
+is C07 (`…_edits_ok`).
 -/
 namespace C01
 open EditM
@@ -52,6 +55,51 @@ cut `k-1` and cut `k` -/
 theorem pieces_are_slices (o : List Nat) (a b : Nat) (rest : List Nat) :
     pieces o a (b :: rest) = slice o a b :: pieces o b rest := rfl
 
+/-- **Tokens straight from the lattice partition the original text** (`path_contiguous` of DESIGN §3
+C01 composed with `surfaces_partition`).  `l` is the offset map after any admissible edit batches,
+`t = textOf l` the rewritten text, whose first byte starts a character (`hstart`: it is UTF-8); the
+lattice is built over the `nchars t` characters of `t` from any candidates `F` (non-empty, inserted by
+begin position) with any connection costs, and EOS is connected.  The tokens are the nodes of the
+back-pointer path (`fill_top_path`), their byte ends `cuts` are read from the character→byte table
+(`resolve_best_path`: `to_curr_byte_idx(node.end())`, model `c2b t`), every table access in range.
+Then the surfaces — slices of the original text between the images of consecutive cuts —
+concatenate to the original text, the first token begins at 0, the last ends at the original length,
+every token boundary is a character boundary of the original text and lies inside it. -/
+theorem lattice_tokens_partition (o : List Nat) (hne : o ≠ []) (h0 : BoOf o 0)
+    (bs : List (List (Edit Nat))) (l : List (P Nat))
+    (hok : BatchesOk isStart (identFrom 0 o) bs) (h : commitAll (identFrom 0 o) bs = some l)
+    (hstart : BoOf (textOf l) 0)
+    (conn : Nat → Nat → Int) (F : List Vit.Node) (hwf : Vit.WF F)
+    (hs : F.Pairwise (fun a b => a.b ≤ b.b)) (v : Int)
+    (heos : Vit.eosCost conn (Vit.build conn F Vit.init) (nchars (textOf l)) = some v) :
+    let p := Vit.bestPath conn (Vit.build conn F Vit.init) (nchars (textOf l))
+    let cuts := p.map (fun n => ((c2b (textOf l))[n.e]?).getD 0)
+    (pieces o 0 (cuts.map (valAt l))).flatten = o ∧
+    valAt l 0 = 0 ∧
+    valAt l ((0 :: cuts).getLast (by simp)) = o.length ∧
+    (∀ c ∈ cuts, BoOf o (valAt l c)) ∧
+    (∀ c ∈ cuts, valAt l c ≤ o.length) ∧
+    (∀ n ∈ p, n.e < (c2b (textOf l)).length) := by
+  intro p cuts
+  have hi := commitAll_inv isStart (BoOf o) o.length h0 bs _ l (ident_inv o hne) hok h
+  have hlenl := shape_length hi.shape
+  obtain ⟨_, _, _, hmono, hlast, hin⟩ := C02.path_contiguous conn F hwf hs (nchars (textOf l)) v heos
+    (c2b (textOf l)) (c2b_spec (textOf l)).1 (by rw [c2b_length]; omega)
+  simp only [c2b_head (textOf l) hstart, c2b_last (textOf l), Option.getD_some] at hmono hlast
+  -- every cut is an entry of the table, hence a character boundary of the rewritten text
+  have hbo : ∀ c ∈ cuts, BoOf (textOf l) c := by
+    intro c hc
+    obtain ⟨n, hn, rfl⟩ := List.mem_map.mp hc
+    have hlt := hin n hn
+    rw [List.getElem?_eq_getElem hlt, Option.getD_some]
+    exact (c2b_spec (textOf l)).2 _ (List.getElem_mem hlt)
+  have hle : ∀ c ∈ cuts, c ≤ (textOf l).length := by
+    intro c hc
+    rcases hbo c hc with h1 | ⟨h1, _⟩ <;> omega
+  obtain ⟨r1, r2, r3, r4, r5⟩ := surfaces_partition o hne h0 bs l hok h cuts hmono hlast
+    (fun c hc hlt => isB_of_boOf hi.shape c (hbo c hc) hlt)
+  exact ⟨r1, r2, r3, fun c hc => r4 c hc (by have := hle c hc; omega), fun c hc => r5 c hc (hle c hc), hin⟩
+
 /-- non-vacuity: `宇宙人`, first character replaced by two characters (six bytes), tokens cut
 after 3, 6 and 12 bytes of the rewritten text ↦ original ranges 0..3, 3..3 (empty), 3..9. -/
 example :
@@ -59,5 +107,25 @@ example :
     let b1 : List (Edit Nat) := [⟨0, 3, [0xE3, 0x81, 0x82, 0xE3, 0x81, 0x84]⟩]
     (commitAll (identFrom 0 o) [b1]).map (fun l => [3, 6, 12].map (valAt l)) = some [3, 3, 9] := by
   decide
+
+/-- non-vacuity of `lattice_tokens_partition`: `宇宙人` with the first two characters replaced by `あい`
+(rewritten text `あい人`: 9 bytes, 3 characters, table `[0, 3, 6, 9]`), candidates `あ`, `あい`, `い`, `人`;
+EOS is connected (cost 5), the lattice path is `あい|人`, its byte ends are 6 and 9 and their images in
+the original text are 6 and 9. -/
+example :
+    let o := [0xE5, 0xAE, 0x87, 0xE5, 0xAE, 0x99, 0xE4, 0xBA, 0xBA]
+    let b1 : List (Edit Nat) := [⟨0, 6, [0xE3, 0x81, 0x82, 0xE3, 0x81, 0x84]⟩]
+    let F : List Vit.Node := [⟨0, 1, 1, 1, 5⟩, ⟨0, 2, 2, 2, 3⟩, ⟨1, 2, 1, 1, 5⟩, ⟨2, 3, 1, 1, 2⟩]
+    let conn : Nat → Nat → Int := fun _ _ => 0
+    (commitAll (identFrom 0 o) [b1]).map (fun l =>
+      (textOf l, nchars (textOf l), c2b (textOf l),
+       Vit.eosCost conn (Vit.build conn F Vit.init) (nchars (textOf l)),
+       (Vit.bestPath conn (Vit.build conn F Vit.init) (nchars (textOf l))).map
+          (fun n => valAt l (((c2b (textOf l))[n.e]?).getD 0))))
+      = some ([0xE3, 0x81, 0x82, 0xE3, 0x81, 0x84, 0xE4, 0xBA, 0xBA], 3, [0, 3, 6, 9], some 5, [6, 9]) ∧
+    BoOf [0xE3, 0x81, 0x82, 0xE3, 0x81, 0x84, 0xE4, 0xBA, 0xBA] 0 ∧
+    Vit.WF F ∧ F.Pairwise (fun a b => a.b ≤ b.b) := by
+  refine ⟨by decide, Or.inr ⟨by decide, by decide⟩,
+    by intro n hn; simp at hn; rcases hn with rfl | rfl | rfl | rfl <;> decide, by decide⟩
 
 end C01
